@@ -159,9 +159,11 @@ def attribute_inproc(name, sid, seed, net_seed):
         kinds.append(K_REPEAT)
         info[K_REPEAT] = _diff(base, again)
         return kinds, info
-    if name in HISTORY:
+    if True:
         with D.perturbed(**dict(P_A, vclock=True)):
-            D.run_digest(name, sid, seed + 77, net_seed, alt_bounds=True)
+            if name in HISTORY:
+                D.run_digest(name, sid, seed + 77, net_seed, alt_bounds=True)
+            D._other_flavours()
         h = _run_in(name, sid, seed, net_seed, dict(P_A, vclock=True))
         if _diff(base, h):
             kinds.append(K_HISTORY)
@@ -209,6 +211,8 @@ def work_inproc(item, col):
             with D.perturbed(**P_B):
                 D.run_digest(name, sid, s + 77, net_seed, alt_bounds=True)  # process history: another training, other bounds
             col.outcome("pairs_with_a_different_training_run_in_between")
+        with D.perturbed(**P_B):
+            D._other_flavours()  # and buffers / bandits of the other flavours are built and used (every routine)
         b = _run_in(name, sid, s, net_seed, P_B)
         a = A[s]
         _note_run(col, a, seen)
